@@ -39,14 +39,16 @@ Proof. exact crash_image_lemma. Qed.
 (* Crash image with renames: the same statement for the histories that meet NO KNOWN CLASS - FsKnown.kclasses,
    the narrow classes of known_findings.txt as gen/fam_fs.py decides them (RootOp, RenameSelf, RenameDir,
    StaleHandle, RenameFile (a)-(f), RenameCrossDir, Recreate, KindSwap) - over the alphabet that also has the
-   renames of regular files within one directory, onto a fresh name or over an existing file, followed by
+   renames of regular files, onto a fresh name or over an existing file, followed by
    anything the classes allow: reads and data syncs through the new name, unlink of the new name, further
    renames of other files, directory syncs in any order, crashes at any point.  A rename not yet flushed by a
    sync of the directory is rolled back by a crash; flushed, it is durable with the contents of the file's
    last data sync, and a replaced file is durably gone.
    _partial - what [ksafe] / [c07r_op] exclude beyond the known classes (FsKnown.v, end of file):
-   create_dir_all / remove_dir_all; renames between two different directories (covered by the oracle and
-   the narrow class RenameCrossDir only); any creation of a file at a name a file left since the last
+   create_dir_all / remove_dir_all; a sync of exactly one of the two directories of an unflushed rename
+   between different directories (such a rename is covered while no directory sync touches it - a crash
+   rolls it back -; its flush from the new directory's side is covered by the oracle and the narrow class
+   RenameCrossDir only); any creation of a file at a name a file left since the last
    crash (FsSafe.KRecreate; the known finding Recreate is narrower, the re-creations outside it are asserted
    by the oracle only); a rename onto a name a directory was removed from since the last crash; a crash on
    a dangling durable subtree. *)
